@@ -86,6 +86,7 @@ func checkC01(c *Ctx) {
 	c.checkSeenThreaded()
 	c.checkDataRecursion(br)
 	c.checkNilArguments(br)
+	c.checkNilReflectTypes(br)
 
 	// ---- C01-TA
 	for _, f := range c.zygoFuncs() {
